@@ -26,14 +26,14 @@ type Grammar struct {
 	NodeT     *types.Named // the AST node interface
 	TokNames  map[int64]string
 
-	NextChar *ssa.Function
-	NextItem *ssa.Function
+	NextChar     *ssa.Function
+	NextItem     *ssa.Function
 	NextItemDecl *ast.FuncDecl
-	TestOp   *ssa.Function // (*scanner, string) bool
-	NewOp    *ssa.Function // (string, node, node) node
-	NewAxis  *ssa.Function
-	NewOperand *ssa.Function
-	EntryLevel *ssa.Function // parseExpression's callee
+	TestOp       *ssa.Function // (*scanner, string) bool
+	NewOp        *ssa.Function // (string, node, node) node
+	NewAxis      *ssa.Function
+	NewOperand   *ssa.Function
+	EntryLevel   *ssa.Function // parseExpression's callee
 
 	// token tables
 	TextTok map[string]int64 // source text -> token constant
